@@ -135,6 +135,10 @@ def run(db, chk) -> None:
                        accepted=want, why="events of one side must not appear on the other; the frame must be this rank's")
                 sides[nm] = ins
             ok_same = len(sides.get("host", [])) == 1 and sides["host"] == sides.get("device")
+            # law: an INNER join on the key K keeps a pair only if both rows carry the same K, so `K in S` on one side restricts the rows of the other side that can match as well
+            if not ok_same and how == "inner" and lk == (CORR,) and rk_ == (CORR,) and len({x for v_ in sides.values() for x in v_}) == 1 and all(len(v_) <= 1 for v_ in sides.values()):
+                ok_same = True
+                sides = {k_: [x for v_ in sides.values() for x in v_][:1] for k_ in sides}
             chk.ob(rule, f"{tag} both sides restricted to the same correlation set", ok_same, where, found={k: [T.show(x)[:100] for x in v] for k, v in sides.items()}, accepted="one shared isin(correlation set)")
             if ok_same:
                 S = sides["host"][0][2]
